@@ -5,6 +5,7 @@ to the normal form `normT` (ids erased - restored elements are copies - and an e
 from a missing one).
 -/
 import XmlDiffModel.Proofs.Undo2
+import XmlDiffModel.Model.Project
 
 namespace XmlDiffModel
 namespace Undo
@@ -12,7 +13,6 @@ open Tree
 
 /-! ### normal form -/
 
-def nt (o : Option Str) : Option Str := if strOf o = [] then none else o
 
 mutual
   def normT : Tree → Tree
